@@ -364,7 +364,8 @@ def run_real(case: Dict[str, Any]) -> Dict[str, Any]:
     finally:
         os.chdir(cwd)
         shutil.rmtree(base, ignore_errors=True)
-        logging.Logger.manager.loggerDict.pop(f"pyrtma.parser ({P.Parser._instance_count})", None)
+        from . import priv as _PV          # forget the per-instance loggers (named after a private counter)
+        _PV.drop_parser_loggers()
 
 
 # --------------------------------------------------------------------------------------------------
@@ -486,14 +487,55 @@ def reserve_pattern() -> Tuple[str, str]:
     the source by `ast` (not imported)"""
     import ast
     src = (C.REPO / "src" / "pyrtma" / "parser.py").read_text()
-    for node in ast.walk(ast.parse(src)):
+    tree = ast.parse(src)
+
+    def literal(n):
+        return n.value if isinstance(n, ast.Constant) and isinstance(n.value, str) else None
+
+    # `NAME = re.compile(<literal>, ...)` anywhere in the file (module or class level, or inside a function)
+    compiled: Dict[str, str] = {}
+    for node in ast.walk(tree):
+        val = node.value if isinstance(node, (ast.Assign, ast.AnnAssign)) else None
+        if (isinstance(val, ast.Call) and isinstance(val.func, ast.Attribute) and val.func.attr == "compile"
+                and isinstance(val.func.value, ast.Name) and val.func.value.id == "re" and val.args
+                and literal(val.args[0]) is not None):
+            tgts = node.targets if isinstance(node, ast.Assign) else [node.target]
+            for t in tgts:
+                nm = t.id if isinstance(t, ast.Name) else (t.attr if isinstance(t, ast.Attribute) else None)
+                if nm:
+                    compiled[nm] = literal(val.args[0])
+    for node in ast.walk(tree):
         if isinstance(node, ast.FunctionDef) and node.name == "handle_reserve":
             for c in ast.walk(node):
-                if (isinstance(c, ast.Call) and isinstance(c.func, ast.Attribute) and isinstance(c.func.value, ast.Name)
-                        and c.func.value.id == "re" and c.args and isinstance(c.args[0], ast.Constant)
-                        and isinstance(c.args[0].value, str)):
-                    return c.args[0].value, c.func.attr
-    # a tree whose handle_reserve has no such call any more is an observation about the tree, not a failure of the
+                if not (isinstance(c, ast.Call) and isinstance(c.func, ast.Attribute)):
+                    continue
+                f, recv = c.func.attr, c.func.value
+                # re.search(<literal>, e)
+                if isinstance(recv, ast.Name) and recv.id == "re" and c.args and literal(c.args[0]) is not None:
+                    return literal(c.args[0]), f
+                if f not in ("search", "match", "fullmatch"):
+                    continue
+                # re.compile(<literal>).search(e)
+                if (isinstance(recv, ast.Call) and isinstance(recv.func, ast.Attribute) and recv.func.attr == "compile"
+                        and recv.args and literal(recv.args[0]) is not None):
+                    return literal(recv.args[0]), f
+                # PATTERN.search(e) / self.PATTERN.search(e) / Parser.PATTERN.search(e) with PATTERN = re.compile(<literal>)
+                nm = recv.id if isinstance(recv, ast.Name) else (recv.attr if isinstance(recv, ast.Attribute) else None)
+                if nm in compiled:
+                    return compiled[nm], f
+    # last resort: run the code — the compiled pattern objects the module holds and the method names handle_reserve uses
+    try:
+        import re as _re
+        import pyrtma.parser as P
+        used = set(P.Parser.handle_reserve.__code__.co_names)
+        pats = [v for k, v in list(vars(P).items()) + list(vars(P.Parser).items())
+                if isinstance(v, _re.Pattern) and k in used]
+        fs = [f for f in ("search", "match", "fullmatch") if f in used]
+        if len(pats) == 1 and len(fs) == 1:
+            return pats[0].pattern, fs[0]
+    except Exception:  # noqa: BLE001
+        pass
+    # a tree whose handle_reserve matches no pattern we can find is an observation about the tree, not a failure of the
     # framework: the caller falls back to the modelled pattern for the reference column and reports the tie as broken
     return None, None  # type: ignore[return-value]
 
@@ -584,7 +626,8 @@ def _rx_work(args) -> Dict[str, Any]:
             raise
         rec["impl"] = {"ok": False, "cls": type(e).__name__, "msg": str(e)[:120]}
     finally:
-        logging.Logger.manager.loggerDict.pop(f"pyrtma.parser ({P.Parser._instance_count})", None)
+        from . import priv as _PV          # forget the per-instance loggers (named after a private counter)
+        _PV.drop_parser_loggers()
     return rec
 
 
